@@ -303,14 +303,31 @@ func adErrorCase(t testing.TB, tr *tracer, c adCase, i int) {
 	s.s2c.onWrite = nil
 	s.v.addFile("/f", []byte("x"))
 	herr := adMakeErr(c.Err, c.Wrap)
-	via := []string{"cmd", "open", "list"}[i%3]
+	vias := []string{"cmd", "open", "list", "read", "readN", "write", "listat", "listatN"}
+	via := vias[i%len(vias)]
+	if (c.Err == "nil" || c.Err == "io.EOF" || c.Err == "fx:0" || c.Err == "fx:1") && i%len(vias) >= 3 {
+		// success / end-of-data returned by ReadAt, WriteAt, ListAt is the subject of C01 / C13 / C16, not an error to map
+		via = vias[i%3]
+	}
+	s.v.addDir("/dd")
+	s.v.addFile("/dd/e1", []byte("1"))
+	s.v.addFile("/dd/e2", []byte("2"))
 	switch via {
 	case "cmd":
 		s.v.failAt["cmd:Mkdir"] = herr
 	case "open":
 		s.v.failAt["open:/f"] = herr
-	default:
+	case "list":
 		s.v.failAt["list:/f"] = herr
+	case "read", "readN":
+		// the handler's reader fails, without (0, err) or with (n > 0, err) data: either way the error is the answer
+		s.v.failAt["R:0"] = herr
+		s.v.failPartial = via == "readN"
+	case "write":
+		s.v.failAt["W:0"] = herr
+	default:
+		s.v.failAt["L:0"] = herr
+		s.v.failPartial = via == "listatN"
 	}
 	go func() { s.rs.Serve(); s.conn.Close(); close(s.serveDone) }()
 	cl, err := NewClientPipe(s.s2c, pipeWriteCloser{p: s.c2s})
@@ -327,8 +344,22 @@ func adErrorCase(t testing.TB, tr *tracer, c adCase, i int) {
 		if cerr == nil && f != nil {
 			f.Close()
 		}
-	default:
+	case "list":
 		_, cerr = cl.Stat("/f")
+	case "read", "readN":
+		var f *File
+		if f, cerr = cl.Open("/f"); cerr == nil {
+			_, cerr = f.ReadAt(make([]byte, 1), 0)
+			f.Close()
+		}
+	case "write":
+		var f *File
+		if f, cerr = cl.OpenFile("/f", os.O_WRONLY); cerr == nil {
+			_, cerr = f.WriteAt([]byte("y"), 0)
+			f.Close()
+		}
+	default:
+		_, cerr = cl.ReadDir("/dd")
 	}
 	got, textok := "", true
 	var se *StatusError
@@ -348,6 +379,8 @@ func adErrorCase(t testing.TB, tr *tracer, c adCase, i int) {
 		} else {
 			got = fmt.Sprintf("code:%d", se.Code)
 		}
+	case strings.Contains(cerr.Error(), "unexpected SSH_FX_OK"):
+		got = "novalue" // STATUS(OK) arrived where a value was required
 	default:
 		got = "other:" + cerr.Error()
 	}
@@ -394,7 +427,7 @@ func TestVerif_Adapter(t *testing.T) {
 			tr.reset(kv{"kind": "adapter", "table": "dispatch", "i": i})
 			adDispatchCase(t, tr, c, i)
 		case "error":
-			for rep := 0; rep < 3; rep++ { // through Filecmd, Fileread and Filelist
+			for rep := 0; rep < 8; rep++ { // through Filecmd, Fileread, Filelist and the ReadAt / WriteAt / ListAt of their objects
 				tr.reset(kv{"kind": "adapter", "table": "error", "i": i, "rep": rep})
 				adErrorCase(t, tr, c, i+rep)
 			}
